@@ -98,12 +98,15 @@ class PTree:
             out[self.name[n]] = n
         return out
 
-    def to_newick(self, n: int = 0, with_features=True) -> str:
+    def to_newick(self, n: int = 0, with_features=True, lengths=None) -> str:
+        """`lengths`: optional sequence of branch lengths written after the names of the non-root nodes (cyclically)."""
         def rec(k):
             s = ""
             if self.children[k]:
                 s = "(" + ",".join(rec(c) for c in self.children[k]) + ")"
             s += self.name[k]
+            if lengths and k != n:
+                s += f":{lengths[k % len(lengths)]}"
             if with_features and self.features[k]:
                 s += "[&&NHX:" + ":".join(
                     f"{a}={b}" for a, b in sorted(self.features[k].items())
